@@ -69,7 +69,36 @@ impl<'a> Chk<'a> {
         c.trim_matches(|x: char| x.is_ascii_punctuation() || "\u{2018}\u{2019}\u{201C}\u{201D}\u{0964}\u{0983}".contains(x))
     }
     fn is_emoji(&self, c: &str) -> bool {
-        self.emoji.contains(c) || self.emoji.contains(self.strip_wrap(c))
+        if self.emoji.contains(c) || self.emoji.contains(self.strip_wrap(c)) {
+            return true;
+        }
+        // an emoji may itself begin with an ASCII punctuation character (keycap # and *): try every way of taking wrapping
+        // characters off the two ends
+        let wrap = |x: char| x.is_ascii_punctuation() || "\u{2018}\u{2019}\u{201C}\u{201D}\u{0964}\u{0983}".contains(x);
+        let idx: Vec<(usize, char)> = c.char_indices().collect();
+        let n = idx.len();
+        let mut i = 0;
+        loop {
+            let mut j = n;
+            loop {
+                if i < j {
+                    let a = idx[i].0;
+                    let b = if j == n { c.len() } else { idx[j].0 };
+                    if self.emoji.contains(&c[a..b]) {
+                        return true;
+                    }
+                }
+                if j == 0 || j <= i || !wrap(idx[j - 1].1) {
+                    break;
+                }
+                j -= 1;
+            }
+            if i >= n || !wrap(idx[i].1) {
+                break;
+            }
+            i += 1;
+        }
+        false
     }
     /// (ii) ANSI-on list vs twin (ANSI off, English off)
     fn differential(&self, opts_on: &Opts, evs: &[Ev], on: &Rend, twin: &Rend, fixed_word: Option<&str>) {
@@ -363,6 +392,68 @@ pub fn run(report: &Report, thorough: bool) -> Evidence {
             |_| (),
         );
         parts.insert("phonetic_autocorrect_keys_with_suffixes".into(), json!({"keys": keys.len(), "suffixes": if thorough { 6 } else { 3 }}));
+    }
+
+    // (iv) phonetic: every English emoji name bare and wrapped (between colons as in chat short codes, in brackets, behind a
+    // hash, in quotes) and every emoticon, with the suggestion list on and off: whatever source an emoji could come from, none
+    // may be offered under ANSI; every rendering on the way is judged
+    if crate::par::part_enabled("phonetic") {
+        let mut texts: Vec<String> = vec![];
+        let mut names: Vec<String> = emojicon::internal::emojis().keys().map(|k| k.to_string()).filter(|k| !k.is_empty() && k.chars().all(|c| crate::keys::code_for_char(c).is_some())).collect();
+        names.sort();
+        for (i, n) in names.iter().enumerate() {
+            texts.push(n.clone());
+            texts.push(format!(":{}:", n));
+            if thorough || i % 4 == 0 {
+                texts.push(format!("({})", n));
+                texts.push(format!("#{}", n));
+                texts.push(format!("\"{}\".", n));
+            }
+        }
+        let mut emo: Vec<String> = emojicon::internal::emoticons().keys().map(|k| k.to_string()).filter(|k| k.chars().all(|c| crate::keys::code_for_char(c).is_some())).collect();
+        emo.sort();
+        texts.extend(emo);
+        let chunks: Vec<&[String]> = texts.chunks(48).collect();
+        let mk = |xdg: &str, ansi: bool, english: bool, psugg: bool| {
+            let mut o = Opts::phonetic(&real_db(), xdg);
+            o.ansi = ansi;
+            o.english = english;
+            o.psugg = psugg;
+            crate::drv::clear_user_files(&o);
+            Ctx::new(&o).expect("ctx")
+        };
+        par_for(
+            chunks.len() * 2,
+            1,
+            |w| scratch_xdg(&format!("c16pe-{}", w)),
+            |xdg, idx| {
+                let psugg = idx % 2 == 0;
+                let mut on = mk(xdg, true, true, psugg);
+                std::fs::create_dir_all(format!("{}-twin/openbangla-keyboard", xdg)).ok();
+                let mut twin = mk(&format!("{}-twin", xdg), false, false, psugg);
+                for text in chunks[idx / 2] {
+                    let _ = on.apply(&Ev::Finish);
+                    let _ = twin.apply(&Ev::Finish);
+                    let evs: Vec<Ev> = text.chars().map(Ev::ch).collect();
+                    for (i, e) in evs.iter().enumerate() {
+                        events.fetch_add(2, Ordering::Relaxed);
+                        match (on.apply(e), twin.apply(e)) {
+                            (Ok(Out::Sugg(x)), Ok(Out::Sugg(y))) => {
+                                chk.readout(&on.opts, &evs[..=i], &x);
+                                chk.differential(&on.opts, &evs[..=i], &x, &y, None);
+                            }
+                            (Err(f), _) | (_, Err(f)) => {
+                                report.add(fail_violation("C16", &f, &on.opts, &evs[..=i]));
+                                break;
+                            }
+                            _ => {}
+                        }
+                    }
+                }
+            },
+            |_| (),
+        );
+        parts.insert("phonetic_emoji_names_and_emoticons".into(), json!({"texts": texts.len(), "wrappings": "bare, :name:, (name), #name, \"name\".", "suggestion_list": "on and off"}));
     }
 
     // ---------- fixed: dictionary words, ANSI on, with twin ----------
